@@ -103,3 +103,30 @@ package opshell
 //@   ghost k int = 0
 //@   on send cw(v): assert(v == string(b) && k == 0, "one_send_of_the_whole_payload"); k++
 //@   ensures sent_once: k == 1 && n == len(b) && err == nil
+
+// ---- set-up and tear-down of the terminal (C20)
+//@ func New(ich, och, prompt, noTimestamps, insertGen, insertName) (sh, cleanup, err)
+//@   props C20
+//@   nilable ich, och, insertGen
+//@   ghost opened bool = false
+//@   ghost raw bool = false
+//@   ghost nCleanup int = 0
+//@   on call os.Open(n) (f, e): opened = e == nil
+//@   on call goxterm.MakeRaw(fd) (os, e): assert(opened && nCleanup == 0, "raw_mode_on_the_opened_tty"); raw = e == nil
+//@   on enter cleanup(): nCleanup++
+//@   ensures failure_returns_nothing: imp(err != nil, sh == nil && cleanup == nil)
+//@   ensures success_returns_shell_and_cleanup: imp(err == nil, sh != nil && cleanup != nil)
+//@   ensures success_is_raw_and_not_cleaned: imp(err == nil, raw && nCleanup == 0)
+//@   ensures failure_after_open_cleans_up: imp(err != nil && opened, nCleanup == 1)
+//@   ensures raw_iff_success: iff(raw, err == nil)
+
+// the cleanup function: restore the saved terminal state if there is one, close the tty.
+//@ func New#3()
+//@   props C20
+//@   nilable oldState
+//@   ghost nRestore int = 0
+//@   ghost nClose int = 0
+//@   on enter goxterm.Restore(fd, os): assert(os == oldState && oldState != nil && nClose == 0, "restores_the_state_saved_by_MakeRaw_before_closing"); nRestore++
+//@   on enter os.File.Close(f): assert(f == s.ttyF, "closes_the_tty"); nClose++
+//@   ensures restored_iff_saved: iff(nRestore == 1, oldState != nil) && nRestore <= 1
+//@   ensures tty_closed: nClose == 1
